@@ -158,10 +158,13 @@ func New(startTime time.Time, logLevel slog.Level) *Handler {
 	// Galileo keeps GPS time.
 	startOfGalileoWeek := startOfGPSWeek
 
-	// Set the stored timestamps to match the start time.
-	timestampFromPreviousGPSMessage := (uint(startTime.Sub(startOfGPSWeek).Milliseconds()))
+	// The start time only has to be in the same week as the first message,
+	// which may have been sent earlier or later than the start time.  So the
+	// first timestamp must never be taken for a roll-over: set the stored
+	// timestamps to the start of the week, not to the start time.
+	var timestampFromPreviousGPSMessage uint = 0
 	timestampFromPreviousGalileoMessage := timestampFromPreviousGPSMessage
-	timestampFromPreviousBeidouMessage := (uint(startTime.Sub(startOfBeidouWeek).Milliseconds()))
+	var timestampFromPreviousBeidouMessage uint = 0
 
 	handler := Handler{
 		startOfGPSWeek:                      startOfGPSWeek,
